@@ -24,6 +24,12 @@ Theorem C13_traveller : rt enc_traveller dec_traveller ok_traveller.         Pro
 Print Assumptions C13_traveller.
 Theorem C13_smoothed_window : rt enc_smooth dec_smooth ok_smooth.            Proof. exact rt_smooth. Qed.
 Print Assumptions C13_smoothed_window.
+(** ... and the hypothesis [ok_smooth] (both window sizes fit a signed 32-bit field) cannot be dropped:
+    SetParams accepts MaxPoints up to 2^32-1 and smoothing windows up to 2^63-1 (known finding F18) *)
+Theorem C13_smoothed_window_beyond_int32_refuted :
+  exists w : wsmooth, dec_smooth (enc_smooth w) <> Some (w, []).
+Proof. exists (4294967299, (2147483648, ([], []))). vm_compute. discriminate. Qed.
+Print Assumptions C13_smoothed_window_beyond_int32_refuted.
 Theorem C13_linear_predictor : rt enc_bestfit dec_bestfit ok_bestfit.        Proof. exact rt_bestfit. Qed.
 Print Assumptions C13_linear_predictor.
 Theorem C13_polynomial_predictor : rt enc_polyfit dec_polyfit ok_polyfit.    Proof. exact rt_polyfit. Qed.
